@@ -178,7 +178,11 @@ def edit_histories(ctx, n):
                 elif op == "remove-child" and kids:
                     j = rng.randrange(len(kids))
                     del td[k][j]
+                    anchor = tb.items.index(kids[0])     # the list key keeps its place in the dictionary whichever child goes
                     tb.items.remove(kids[j])
+                    if j == 0 and len(kids) > 1:
+                        tb.items.remove(kids[1])
+                        tb.items.insert(anchor, kids[1])
                     if not td[k]:
                         del td[k]
                 elif op == "swap-children" and len(kids) >= 2:
